@@ -123,7 +123,7 @@ fn crate_version(member: &str) -> String {
 
 pub fn c15(out: &mut dyn Write, tier: &str, _rng: &mut Rng, st: &mut Stats) {
     let mut ns: Vec<usize> = (1..=12).collect();
-    ns.extend_from_slice(&[16, 20, 31, 32, 40, 255, 256, 300]);
+    ns.extend_from_slice(&[16, 20, 31, 32, 40, 255, 256, 300, 317]);
     if tier == "thorough" { ns.extend(13..=40); ns.extend_from_slice(&[64, 100, 128, 254, 257, 400, 1000]); }
     // … then smaller boards written into the file that holds a larger board whose size begins with the same digits
     // (10 then 1, 12 then 1, 20 then 2, 40 then 4), and the same size twice
